@@ -82,6 +82,7 @@ structure Setup where
   batchPct : Nat := 5
   reportFlush : Bool := true
   keepUnreported : Bool := true
+  flushInvalid : Bool := true
   sinks : List Sink := []
   lgs : List Lg := []
 
@@ -90,7 +91,7 @@ def mkState (u : Setup) (hdr strOv now : Nat) : BSt :=
   { cfg := { dropping := u.dropping, qcap := u.qcap, grace := u.grace, soft := u.soft, hard := u.hard, hdr := hdr,
              strOverhead := strOv, batchPct := u.batchPct, qp := qp, invalidBits := u.invalidBits,
              refreshAfterSample := u.refreshAfter, catchAllFormat := u.catchAll,
-             reportBeforeFlushCleanup := u.reportFlush, cleanupKeepsUnreported := u.keepUnreported },
+             reportBeforeFlushCleanup := u.reportFlush, cleanupKeepsUnreported := u.keepUnreported, flushInvalidatedLoggers := u.flushInvalid },
     now := now, sinks := u.sinks, lgs := u.lgs,
     names := (List.range u.lgs.length).map (fun i => ((u.lgs.getD i default).gid, i)) }
 
@@ -129,6 +130,7 @@ def runTrace : IO UInt32 := do
         | some ("batchPct", v) => u := { u with batchPct := nat! v }
         | some ("reportFlush", v) => u := { u with reportFlush := v == "1" }
         | some ("keepUnreported", v) => u := { u with keepUnreported := v == "1" }
+        | some ("flushInvalid", v) => u := { u with flushInvalid := v == "1" }
         | _ => pure ()
     | "cfg" :: rest =>
       for x in rest ++ Drv.words obsS do
